@@ -2,6 +2,7 @@
 from __future__ import annotations
 
 import collections
+import collections.abc
 import copy
 
 from hypothesis import strategies as st
@@ -95,6 +96,8 @@ def py(x):
 
 def norm_result(res):
   out = {}
+  if not isinstance(res, collections.abc.Mapping):
+    return {'__not_a_mapping__': type(res).__name__}     # e.g. the empty placeholder when nothing was aggregated
   for k, v in dict(res).items():
     if hasattr(k, 'metrics') and hasattr(k, 'slice'):
       nk = (str(k.metrics), tuple(str(f) for f in k.slice.features), tuple(py(x) for x in k.slice.values))
